@@ -5,6 +5,18 @@
 //            es / ep (consensus State() / Peers() failed then), n (non-ping alerts only)
 //   remove — one member calls the real Cluster.PeerRemove(<failed>)
 //   sync   — every member runs the real Cluster.StateSync
+//   expat  — Pin.ExpiredAt on a concrete clock:  C10 expat <z|unix seconds> <now unix seconds> => <0|1>
+//
+// The actors act in the order listed (any order: the schedule). Flags after the kind, separated by '/':
+//   snap<k> — snapshot discipline: every member acts on its own copy of the pre-state, the logged operations are
+//             then committed to the shared pinset in a pseudo-random order derived from k
+//   x2      — the whole round is run twice (a repeated alert / a second sweep); the output then has four tokens:
+//             pinset and logs after the first round, pinset and logs after the second
+//   np      — the alert names another metric than "ping"
+//   rf      — (remove) consensus.RmPeer fails
+// An actor may carry its own view of the peerset: id:f:r:v<id.id.id> (members that do not agree).
+// In a remove round the log of the acting member ends with R (RmPeer was called), and err is the expected
+// outcome of PeerRemove when RmPeer fails.
 //
 //   C10 <kind> <members id:hash,..> <cidhashes cid:hash,..> <untrusted> <actors id:f:r,..> <failed|-> <dm/s> <metrics> <pre pinset>
 //       => <final pinset> <id=log|id=log...>
@@ -34,6 +46,7 @@ type actor struct {
 	id        int
 	follower  bool
 	disableRP bool
+	view      []int // nil: sees the shared peerset
 }
 
 type round struct {
@@ -49,6 +62,10 @@ type round struct {
 	metrics   []string // per peer id 0..len-1 : a|v<n>|e|i|n
 	pre       []*api.Pin
 	preTok    string
+	snap      int  // -1 serial discipline, else the commit-order seed of the snapshot discipline
+	twice     bool // x2
+	nonPing   bool // np
+	rmFail    bool // rf
 }
 
 func hashDec(b [32]byte) string { return new(big.Int).SetBytes(b[:]).String() }
@@ -76,6 +93,13 @@ func (r *round) input() string {
 	}
 	for i, a := range r.actors {
 		as[i] = fmt.Sprintf("%d:%d:%d", a.id, b(a.follower), b(a.disableRP))
+		if a.view != nil {
+			vs := make([]string, len(a.view))
+			for j, v := range a.view {
+				vs[j] = strconv.Itoa(v)
+			}
+			as[i] += ":v" + strings.Join(vs, ".")
+		}
 	}
 	at := "-"
 	if len(as) > 0 {
@@ -97,6 +121,18 @@ func (r *round) input() string {
 	if r.warm != "" {
 		kind += "@" + r.warm
 	}
+	if r.snap >= 0 {
+		kind += "/snap" + strconv.Itoa(r.snap)
+	}
+	if r.twice {
+		kind += "/x2"
+	}
+	if r.nonPing {
+		kind += "/np"
+	}
+	if r.rmFail {
+		kind += "/rf"
+	}
 	return fmt.Sprintf("C10 %s %s %s %s %s %s dm%d:%d/s%d %s %s", kind, strings.Join(ms, ","), ct,
 		common.Ints(r.untrusted), at, f, r.defMin, r.defMax, b(r.desc), mtk, r.preTok)
 }
@@ -107,7 +143,9 @@ func logTok(l []string) string {
 	}
 	out := make([]string, len(l))
 	for i, s := range l {
-		if strings.HasPrefix(s, "pin ") {
+		if s == "rmpeer" {
+			out[i] = "R"
+		} else if strings.HasPrefix(s, "pin ") {
 			out[i] = "P" + s[4:]
 		} else {
 			out[i] = "U" + strings.TrimPrefix(s, "unpin ")
@@ -116,7 +154,7 @@ func logTok(l []string) string {
 	return strings.Join(out, ";")
 }
 
-func (r *round) run() string {
+func (r *round) newBase() *common.FakeConsensus {
 	ctx := context.Background()
 	cons := common.NewFakeConsensus()
 	for _, m := range r.members {
@@ -132,125 +170,194 @@ func (r *round) run() string {
 			panic(err)
 		}
 	}
-	var logs []string
-	for _, a := range r.actors {
-		mon := common.NewStoreMonitor()
-		const name = "verifmetric"
-		now := time.Now()
-		for i, s := range r.metrics {
-			m := &api.Metric{Name: name, Peer: common.PeerN(i), Valid: true, Value: "3",
-				Expire: now.Add(time.Hour).UnixNano(), ReceivedAt: now.UnixNano()}
-			switch s[0] {
-			case 'a':
-				continue
-			case 'v':
-				m.Value = s[1:]
-			case 'e':
-				m.Expire = now.Add(-time.Hour).UnixNano()
-			case 'i':
-				m.Valid = false
-			case 'n':
-				m.Value = "12x"
-			}
-			mon.Store.Add(m)
+	return cons
+}
+
+// runActor lets one member handle the round's event against the consensus component `cons`.
+func (r *round) runActor(a actor, base *common.FakeConsensus) (string, []c10op) {
+	ctx := context.Background()
+	cons := &c10Cons{FakeConsensus: base, rmFail: r.rmFail}
+	if a.view != nil {
+		cons.view = []peer.ID{}
+		for _, v := range a.view {
+			cons.view = append(cons.view, common.PeerN(v))
 		}
-		var alloc ipfscluster.PinAllocator = ascendalloc.NewAllocator()
-		if r.desc {
-			alloc = descendalloc.NewAllocator()
+	}
+	mon := common.NewStoreMonitor()
+	const name = "verifmetric"
+	now := time.Now()
+	for i, s := range r.metrics {
+		m := &api.Metric{Name: name, Peer: common.PeerN(i), Valid: true, Value: "3",
+			Expire: now.Add(time.Hour).UnixNano(), ReceivedAt: now.UnixNano()}
+		switch s[0] {
+		case 'a':
+			continue
+		case 'v':
+			m.Value = s[1:]
+		case 'e':
+			m.Expire = now.Add(-time.Hour).UnixNano()
+		case 'i':
+			m.Valid = false
+		case 'n':
+			m.Value = "12x"
 		}
-		cfg := &ipfscluster.Config{}
-		cfg.FollowerMode = a.follower
-		cfg.DisableRepinning = a.disableRP
-		cfg.ReplicationFactorMin = r.defMin
-		cfg.ReplicationFactorMax = r.defMax
-		cl := ipfscluster.VerifNewCluster(ctx, ipfscluster.VerifComponents{
-			ID: common.PeerN(a.id), Config: cfg, Consensus: cons, IPFS: common.NewFakeIPFS(), Monitor: mon, Allocator: alloc,
-			Informers: []ipfscluster.Informer{&common.NamedInformer{N: name}},
-		})
-		cons.TakeLog()
-		res := ""
-		func() {
-			defer func() {
-				if rec := recover(); rec != nil {
-					res = "panic"
-				}
-			}()
-			switch r.kind {
-			case "alert":
-				done := make(chan struct{})
-				go func() { defer close(done); cl.VerifAlertsHandler() }()
-				send := func(al *api.Alert) bool {
-					select {
-					case mon.AlertsCh <- al:
-						return true
-					case <-done:
-						return false
-					case <-time.After(10 * time.Second):
-						res = "hang"
-						return false
-					}
-				}
-				pm := api.Metric{Name: "ping", Peer: common.PeerN(r.failed)}
-				sentinel := &api.Alert{Metric: api.Metric{Name: "sentinel", Peer: common.PeerN(r.failed)}, TriggeredAt: now}
-				alive := true
-				if r.warm != "" {
-					// an earlier alert about the same peer, at a time when nothing could be done
-					st, members := cons.St, cons.Members
-					cons.St = common.NewFakeConsensus().St
-					switch {
-					case r.warm[0] == 'm':
-						cons.Members = nil
-						for _, x := range strings.Split(r.warm[1:], ".") {
-							v, _ := strconv.Atoi(x)
-							cons.Members = append(cons.Members, common.PeerN(v))
-						}
-					case r.warm == "es":
-						cons.FailState = 1
-					case r.warm == "ep":
-						cons.FailPeers = 1
-					}
-					if r.warm == "n" {
-						alive = send(sentinel)
-					} else {
-						alive = send(&api.Alert{Metric: pm, TriggeredAt: now.Add(-time.Minute)})
-					}
-					// the sentinel is only consumed once the earlier alert has been fully handled
-					alive = alive && send(sentinel)
-					cons.St, cons.Members, cons.FailState, cons.FailPeers = st, members, 0, 0
-				}
-				if alive && send(&api.Alert{Metric: pm, TriggeredAt: now}) {
-					// a second, non-ping alert is only consumed once the first one has been fully handled
-					send(&api.Alert{Metric: api.Metric{Name: "sentinel", Peer: common.PeerN(r.failed)}, TriggeredAt: now})
-				}
-				cl.VerifCancel()
-				select {
-				case <-done:
-				case <-time.After(10 * time.Second):
-					res = "hang"
-				}
-			case "remove":
-				if err := cl.PeerRemove(ctx, common.PeerN(r.failed)); err != nil {
-					res = "err"
-				}
-				cl.VerifCancel()
-			case "sync":
-				if err := cl.StateSync(ctx); err != nil {
-					res = "err"
-				}
-				cl.VerifCancel()
+		mon.Store.Add(m)
+	}
+	var alloc ipfscluster.PinAllocator = ascendalloc.NewAllocator()
+	if r.desc {
+		alloc = descendalloc.NewAllocator()
+	}
+	cfg := &ipfscluster.Config{}
+	cfg.FollowerMode = a.follower
+	cfg.DisableRepinning = a.disableRP
+	cfg.ReplicationFactorMin = r.defMin
+	cfg.ReplicationFactorMax = r.defMax
+	cl := ipfscluster.VerifNewCluster(ctx, ipfscluster.VerifComponents{
+		ID: common.PeerN(a.id), Config: cfg, Consensus: cons, IPFS: common.NewFakeIPFS(), Monitor: mon, Allocator: alloc,
+		Informers: []ipfscluster.Informer{&common.NamedInformer{N: name}},
+	})
+	base.TakeLog()
+	res := ""
+	func() {
+		defer func() {
+			if rec := recover(); rec != nil {
+				res = "panic"
 			}
 		}()
-		l := logTok(cons.TakeLog())
-		if res != "" {
-			l = res
+		switch r.kind {
+		case "alert":
+			done := make(chan struct{})
+			go func() { defer close(done); cl.VerifAlertsHandler() }()
+			send := func(al *api.Alert) bool {
+				select {
+				case mon.AlertsCh <- al:
+					return true
+				case <-done:
+					return false
+				case <-time.After(10 * time.Second):
+					res = "hang"
+					return false
+				}
+			}
+			pm := api.Metric{Name: "ping", Peer: common.PeerN(r.failed)}
+			if r.nonPing {
+				pm.Name = "freespace"
+			}
+			sentinel := &api.Alert{Metric: api.Metric{Name: "sentinel", Peer: common.PeerN(r.failed)}, TriggeredAt: now}
+			alive := true
+			if r.warm != "" {
+				// an earlier alert about the same peer, at a time when nothing could be done
+				st, members := base.St, base.Members
+				base.St = common.NewFakeConsensus().St
+				switch {
+				case r.warm[0] == 'm':
+					base.Members = nil
+					for _, x := range strings.Split(r.warm[1:], ".") {
+						v, _ := strconv.Atoi(x)
+						base.Members = append(base.Members, common.PeerN(v))
+					}
+				case r.warm == "es":
+					base.FailState = 1
+				case r.warm == "ep":
+					base.FailPeers = 1
+				}
+				view := cons.view
+				if r.warm[0] == 'm' {
+					cons.view = nil
+				}
+				if r.warm == "n" {
+					alive = send(sentinel)
+				} else {
+					alive = send(&api.Alert{Metric: api.Metric{Name: "ping", Peer: common.PeerN(r.failed)}, TriggeredAt: now.Add(-time.Minute)})
+				}
+				// the sentinel is only consumed once the earlier alert has been fully handled
+				alive = alive && send(sentinel)
+				base.St, base.Members, base.FailState, base.FailPeers = st, members, 0, 0
+				cons.view = view
+			}
+			if alive && send(&api.Alert{Metric: pm, TriggeredAt: now}) {
+				// a second, non-ping alert is only consumed once the first one has been fully handled
+				send(&api.Alert{Metric: api.Metric{Name: "sentinel", Peer: common.PeerN(r.failed)}, TriggeredAt: now})
+			}
+			cl.VerifCancel()
+			select {
+			case <-done:
+			case <-time.After(10 * time.Second):
+				res = "hang"
+			}
+		case "remove":
+			err := cl.PeerRemove(ctx, common.PeerN(r.failed))
+			if (err != nil) != r.rmFail {
+				res = "err"
+			}
+			cl.VerifCancel()
+		case "sync":
+			if err := cl.StateSync(ctx); err != nil {
+				res = "err"
+			}
+			cl.VerifCancel()
 		}
-		logs = append(logs, fmt.Sprintf("%d=%s", a.id, l))
+	}()
+	l := logTok(cons.takeCalls())
+	if res != "" {
+		l = res
+	}
+	return fmt.Sprintf("%d=%s", a.id, l), cons.ops
+}
+
+// once runs the round once from the pinset `from` holds; returns the pinset afterwards and the logs token.
+func (r *round) once(pre []*api.Pin) ([]*api.Pin, string) {
+	ctx := context.Background()
+	saved := r.pre
+	r.pre = pre
+	defer func() { r.pre = saved }()
+	var logs []string
+	var final *common.FakeConsensus
+	if r.snap < 0 {
+		final = r.newBase()
+		for _, a := range r.actors {
+			l, _ := r.runActor(a, final)
+			logs = append(logs, l)
+		}
+	} else {
+		var all []c10op
+		for _, a := range r.actors {
+			l, ops := r.runActor(a, r.newBase())
+			logs = append(logs, l)
+			all = append(all, ops...)
+		}
+		// commit everything that was logged, in an order derived from the seed
+		rg := common.NewRng(uint64(r.snap) + 77)
+		for i := len(all) - 1; i > 0; i-- {
+			j := rg.Intn(i + 1)
+			all[i], all[j] = all[j], all[i]
+		}
+		final = r.newBase()
+		for _, o := range all {
+			if o.pin != nil {
+				if err := final.St.Add(ctx, o.pin); err != nil {
+					panic(err)
+				}
+			} else if err := final.St.Rm(ctx, o.unpin); err != nil {
+				panic(err)
+			}
+		}
 	}
 	lt := "-"
 	if len(logs) > 0 {
 		lt = strings.Join(logs, "|")
 	}
-	return common.PinsetTok(cons.Pins()) + " " + lt
+	return final.Pins(), lt
+}
+
+func (r *round) run() string {
+	post, lt := r.once(r.pre)
+	out := common.PinsetTok(post) + " " + lt
+	if r.twice {
+		post2, lt2 := r.once(post)
+		out += " " + common.PinsetTok(post2) + " " + lt2
+	}
+	return out
 }
 
 // storedForm passes pins through a real state so that the pre-state token is what the state holds.
@@ -282,7 +389,7 @@ func randAllocs(r *common.Rng, members []int, must int, pct int) string {
 }
 
 func gen(r *common.Rng) *round {
-	rd := &round{failed: -1}
+	rd := &round{failed: -1, snap: -1}
 	rd.kind = []string{"alert", "alert", "alert", "remove", "sync", "sync"}[r.Intn(6)]
 	n := r.Range(1, 8)
 	for i := 0; i < n; i++ {
@@ -312,6 +419,17 @@ func gen(r *common.Rng) *round {
 			s = "e" // the failed peer's metric has expired
 		}
 		rd.metrics = append(rd.metrics, s)
+	}
+	dim := r.Fork(777)
+	holdsNothing := rd.failed >= 0 && dim.Chance(1, 10)
+	onlyFailed := rd.failed >= 0 && !holdsNothing && dim.Chance(1, 10)
+	if onlyFailed || (rd.kind == "remove" && dim.Chance(1, 3)) {
+		// too few healthy peers: some or all re-pins cannot be allocated
+		for i := range rd.metrics {
+			if i != rd.failed && (onlyFailed || dim.Chance(3, 5)) {
+				rd.metrics[i] = []string{"e", "a", "i"}[dim.Intn(3)]
+			}
+		}
 	}
 	disable := r.Chance(1, 8)
 	isUntrusted := func(m int) bool {
@@ -403,7 +521,45 @@ func gen(r *common.Rng) *round {
 	}
 	rd.pre = storedForm(common.PinsetOf(strings.Join(toks, "|")))
 	rd.preTok = common.PinsetTok(rd.pre)
-	if rd.kind == "alert" && r.Chance(2, 5) {
+	// ---- round-level dimensions (independent stream so that older dimensions keep their distribution)
+	q := r.Fork(4242)
+	if q.Chance(2, 3) { // any order of the members
+		for i := len(rd.actors) - 1; i > 0; i-- {
+			j := q.Intn(i + 1)
+			rd.actors[i], rd.actors[j] = rd.actors[j], rd.actors[i]
+		}
+	}
+	if rd.kind != "remove" && q.Chance(1, 3) {
+		rd.snap = q.Intn(1000)
+	}
+	if rd.kind != "remove" && q.Chance(1, 6) {
+		rd.twice = true
+	}
+	if rd.kind == "remove" && q.Chance(1, 5) {
+		rd.rmFail = true
+	}
+	if rd.kind != "remove" && n >= 3 && q.Chance(1, 8) {
+		// members that do not agree on the peerset: one or two of them miss one other member
+		for k := 0; k < 1+q.Intn(2) && len(rd.actors) > 0; k++ {
+			ai := q.Intn(len(rd.actors))
+			miss := q.Intn(n)
+			if miss == rd.actors[ai].id {
+				continue
+			}
+			var v []int
+			for _, m := range rd.members {
+				if m != miss {
+					v = append(v, m)
+				}
+			}
+			rd.actors[ai].view = v
+		}
+	}
+	if rd.kind == "alert" && q.Chance(1, 12) {
+		rd.nonPing = true
+		return rd
+	}
+	if rd.kind == "alert" && !rd.twice && r.Chance(2, 5) {
 		switch r.Intn(6) {
 		case 0, 1, 2:
 			// another peerset at the time of the earlier alert: members left and/or joined since
@@ -434,7 +590,22 @@ func parse(line string) (*round, bool) {
 	if len(f) < 10 || f[0] != "C10" {
 		return nil, false
 	}
-	rd := &round{kind: f[1], failed: -1}
+	rd := &round{kind: f[1], failed: -1, snap: -1}
+	if fl := strings.Split(f[1], "/"); len(fl) > 1 {
+		f[1], rd.kind = fl[0], fl[0]
+		for _, x := range fl[1:] {
+			switch {
+			case strings.HasPrefix(x, "snap"):
+				rd.snap, _ = strconv.Atoi(x[4:])
+			case x == "x2":
+				rd.twice = true
+			case x == "np":
+				rd.nonPing = true
+			case x == "rf":
+				rd.rmFail = true
+			}
+		}
+	}
 	if i := strings.Index(f[1], "@"); i >= 0 {
 		rd.kind, rd.warm = f[1][:i], f[1][i+1:]
 		if rd.kind != "alert" || rd.warm == "" {
@@ -455,7 +626,16 @@ func parse(line string) (*round, bool) {
 		for _, a := range strings.Split(f[5], ",") {
 			p := strings.Split(a, ":")
 			id, _ := strconv.Atoi(p[0])
-			rd.actors = append(rd.actors, actor{id: id, follower: p[1] == "1", disableRP: p[2] == "1"})
+			ac := actor{id: id, follower: p[1] == "1", disableRP: p[2] == "1"}
+			if len(p) > 3 && strings.HasPrefix(p[3], "v") {
+				ac.view = []int{}
+				for _, x := range strings.Split(p[3][1:], ".") {
+					if v, err := strconv.Atoi(x); err == nil {
+						ac.view = append(ac.view, v)
+					}
+				}
+			}
+			rd.actors = append(rd.actors, ac)
 		}
 	}
 	if f[6] != "-" {
@@ -474,6 +654,21 @@ func parse(line string) (*round, bool) {
 	return rd, true
 }
 
+// expat evaluates the real Pin.ExpiredAt: stamp "z" is the zero time, else unix seconds.
+func expat(stamp, now string) string {
+	p := &api.Pin{}
+	if stamp != "z" {
+		v, _ := strconv.ParseInt(stamp, 10, 64)
+		p.ExpireAt = time.Unix(v, 0)
+	}
+	n, _ := strconv.ParseInt(now, 10, 64)
+	r := 0
+	if p.ExpiredAt(time.Unix(n, 0)) {
+		r = 1
+	}
+	return fmt.Sprintf("C10 expat %s %s => %d", stamp, now, r)
+}
+
 func main() {
 	a := common.ParseArgs()
 	out := common.NewOut()
@@ -482,6 +677,10 @@ func main() {
 		sc := bufio.NewScanner(os.Stdin)
 		sc.Buffer(make([]byte, 1<<20), 1<<24)
 		for sc.Scan() {
+			if ff := strings.Fields(sc.Text()); len(ff) >= 4 && ff[0] == "C10" && ff[1] == "expat" {
+				out.Line("%s", expat(ff[2], ff[3]))
+				continue
+			}
 			if rd, ok := parse(sc.Text()); ok {
 				out.Line("%s => %s", rd.input(), rd.run())
 			}
@@ -498,6 +697,20 @@ func main() {
 	root := common.NewRng(common.Seed())
 	for k := 0; k < total; k++ {
 		if a.Only >= 0 && k != a.Only {
+			continue
+		}
+		if k%25 == 24 {
+			// the clock: Pin.ExpiredAt around the boundary expire == now, the zero time and the unix epoch
+			g := root.Fork(uint64(k))
+			now := int64(g.Intn(2000)) - 1000
+			if g.Chance(1, 2) {
+				now = time.Now().Unix() + int64(g.Intn(7)) - 3
+			}
+			st := "z"
+			if !g.Chance(1, 8) {
+				st = strconv.FormatInt(now+[]int64{-2, -1, 0, 0, 1, 2, -now, 1 - now}[g.Intn(8)], 10)
+			}
+			out.Line("%s", expat(st, strconv.FormatInt(now, 10)))
 			continue
 		}
 		rd := gen(root.Fork(uint64(k)))
